@@ -296,7 +296,8 @@ func (_this *cteListener) ExitValueFloat(ctx *parser.ValueFloatContext) {
 		panic(fmt.Errorf("APD Condition %v", cond))
 	}
 	if sign < 0 {
-		decimal = decimal.Neg(decimal)
+		// Not decimal.Neg(), which turns a negative zero into a positive one.
+		decimal.Negative = true
 	}
 	_this.eventReceiver.OnBigDecimalFloat(decimal)
 }
